@@ -46,6 +46,8 @@ out['__attrs__'] = {rel: attribute_signatures(_ast.parse(m.source)) for rel, m i
 from mpsa.normalize import class_signatures, identifiers
 out['__classes__'] = {rel: class_signatures(_ast.parse(m.source)) for rel, m in repo.modules.items()}
 out['__words__'] = sorted(set().union(*[identifiers(_ast.parse(m.source)) for m in repo.modules.values()]))
+from mpsa.normalize import symmetric_comparisons
+out['__cmps__'] = {rel: {q: symmetric_comparisons(fi.node) for q, fi in m.functions.items() if not isinstance(fi.parent, _FI)} for rel, m in repo.modules.items()}
 out['__all__'] = {rel: sorted(q for q in m.functions if '#' not in q) for rel, m in repo.modules.items()}
 ANCHORS_FILE.write_text(json.dumps(out, indent=0, sort_keys=True))
-print(f'{ANCHORS_FILE}: {sum(len(v) for k, v in out.items() if k not in ("__all__", "__aliases__", "__globals__", "__locals__", "__attrs__", "__classes__", "__words__"))} fingerprints; {sum(len(v) for v in out["__all__"].values())} reference names')
+print(f'{ANCHORS_FILE}: {sum(len(v) for k, v in out.items() if k not in ("__all__", "__aliases__", "__globals__", "__locals__", "__attrs__", "__classes__", "__words__", "__cmps__"))} fingerprints; {sum(len(v) for v in out["__all__"].values())} reference names')
